@@ -7,7 +7,10 @@
     @ case                              fresh empty stack                       → ok
     leaf <id> <shape>                   push Tensor::from(shape, ids)            → ok shape=<shape> | reject
     matrix <id> <rows> <cols> <r>,<c>   push TensorRefMatrix over a Matrix       → ok shape=<shape> | reject
-    matrixof <r>,<c>                    TensorRefMatrix::from/with_names(MatrixRefTensor::from(top)), top 2-dimensional
+    matrixof <r>,<c> [ops=<op;op;…>]    TensorRefMatrix::from/with_names(<ops>(MatrixRefTensor::from(top))), top 2-dimensional;
+                                        ops are matrix-side adaptors applied in order:
+                                          range:<row start>:<row len>:<col start>:<col len>   MatrixRange::from
+                                          reverse:<rows 0|1>:<columns 0|1>                    MatrixReverse::from
     range  <name:start:len,…> kind=lenient|strict   TensorRange::from / from_all / *_strict
     mask   <name:start:len,…> kind=lenient|strict   TensorMask::…
     index  <name:i,…>                   TensorIndex::from
@@ -39,6 +42,9 @@
     layout                              data_layout                              → linear=<names> | nonlinear | other
     memorder                            TensorAccess::from_memory_order, walked in its own order
                                                                                 → linear=<names> cells=<leaf>:<first>+<n> | none
+                                        (cells are listed one by one when they are not consecutive:
+                                         a view restricted by a MatrixRange still claims its
+                                         source's layout and walks a part of it, upwards)
 
   `skip` answers an operation that cannot be expressed in Rust's types for the current stack
   (wrong arity, dimensionality above 6, too few views): both sides apply the same rules.
@@ -88,6 +94,19 @@ def parsePosNames (s : String) : Option (List (Nat × String)) :=
   (splitComma s).mapM fun part =>
     match part.splitOn ":" with
     | [p, n] => p.toNat?.map fun k => (k, n)
+    | _ => none
+
+/-- `range:rs:rl:cs:cl;reverse:1:0;…` -/
+def parseMatOps (s : String) : Option (List View.MatOp) :=
+  if s.isEmpty then some [] else
+  (s.splitOn ";").mapM fun part =>
+    match part.splitOn ":" with
+    | ["range", a, b, c, d] =>
+      match a.toNat?, b.toNat?, c.toNat?, d.toNat? with
+      | some a, some b, some c, some d => some (View.MatOp.range ⟨a, b⟩ ⟨c, d⟩)
+      | _, _, _, _ => none
+    | ["reverse", r, c] =>
+      if (r = "0" ∨ r = "1") ∧ (c = "0" ∨ c = "1") then some (View.MatOp.reverse (r == "1") (c == "1")) else none
     | _ => none
 
 def okShape (v : V) : String := s!"ok shape={showShape v.shape}"
@@ -143,14 +162,33 @@ def describe (v : V) (limit : Nat) : String :=
   let model := " ".intercalate (idxs.map fun idx => showOutcome showCellOpt (v.get idx))
   s!"shape={showShape v.shape} cells=" ++ (if spec = model then spec else s!"{spec} MODEL-SPEC-DISAGREE {model}")
 
+/-- strictly increasing offsets inside one leaf -/
+def increasing : List Cell → Bool
+  | a :: b :: rest => a.1 == b.1 && a.2 < b.2 && increasing (b :: rest)
+  | _ => true
+
+def showWalk (order : List String) (cs : List Cell) : String :=
+  match consecutive cs with
+  | some (l, o, n) => s!"linear={showLayout.showNames order} cells={l}:{o}+{n}"
+  | none => s!"linear={showLayout.showNames order} cells=" ++ " ".intercalate (cs.map showCell)
+
 def memorder (v : V) : String :=
   let spec : String :=
     match v.layout with
     | .ok (.linear order) =>
-      -- a linear view is one whole leaf visited from its first to its last element
-      match v.leafIds with
-      | [leaf] => s!"linear={showLayout.showNames order} cells={leaf}:0+{prod (lens v.shape)}"
-      | _ => "spec-undefined"
+      -- the cells of the property's mapping, visited in the claimed order (last name fastest):
+      -- one leaf, strictly upwards (`layout_linear_increasing`); the whole leaf from its first
+      -- to its last element when nothing was cut away
+      let names := v.shape.map (·.1)
+      let accessLens := order.map fun n => (View.lengthOf v.shape n).getD 0
+      let cells := (allIndexes accessLens).map fun idx =>
+        v.specGet (names.map fun n => idx.getD (order.idxOf n) 0)
+      match cells.mapM id with
+      | none => "spec-undefined"
+      | some cs =>
+        if !increasing cs then "spec-violated"
+        else if cs.length == (v.leaves.map (·.2.length)).sum ∧ (consecutive cs).isNone then "spec-violated"
+        else showWalk order cs
     | .ok _ => "none"
     | .panic k => s!"panic({k})"
   let model : String :=
@@ -163,9 +201,7 @@ def memorder (v : V) : String :=
       match cells.mapM (fun c => match c with | .ok (some c) => some c | _ => none) with
       | none => "walk-failed"
       | some cs =>
-        match consecutive cs with
-        | some (l, o, n) => s!"linear={showLayout.showNames order} cells={l}:{o}+{n}"
-        | none => s!"linear={showLayout.showNames order} cells=" ++ " ".intercalate (cs.map showCell)
+        showWalk order cs
   both spec model
 
 def step (s : State) (toks : List String) : State × String :=
@@ -186,9 +222,12 @@ def step (s : State) (toks : List String) : State × String :=
       | some v => ({ s with stack := v :: s.stack }, okShape v)
       | none => (s, "reject")
     | _, _, _, _ => (s, "bad-op")
-  | "matrixof" :: namesS :: _ =>
+  | "matrixof" :: namesS :: rest =>
     match parseNames namesS with
-    | [r, c] => applyTop s fun v => if v.shape.length ≠ 2 then none else some (v.mkMatrixOf r c)
+    | [r, c] =>
+      match parseMatOps ((optArg "ops" rest).getD "") with
+      | some ops => applyTop s fun v => if v.shape.length ≠ 2 then none else some (v.mkMatrixStack ops r c)
+      | none => (s, "bad-op")
     | _ => (s, "bad-op")
   | "range" :: spec :: rest =>
     match parseTriples spec with
